@@ -991,6 +991,7 @@ def run(chk):   # noqa
     _awaitreg_rule(chk, prog)
     _packflags_rule(chk, prog)
     _lockorder_rule(chk, prog)
+    _rawtypes_rule(chk, prog)
 
 
 def _sweepreset_rule(chk, prog):
@@ -1251,3 +1252,35 @@ def _lockorder_rule(chk, prog):
                               "threads that select over the same two thread channels in opposite clause order each get one mutex "
                               "and wait for the other for ever" % fn.name)
     chk.floor(rule, 1, n)
+
+
+def _rawtypes_rule(chk, prog):
+    """janet_chan_pack lets a few value types travel through a thread channel as they are and marshals the rest into a
+    transit buffer; janet_chan_unpack has the mirror-image list.  A type that is in one list and not in the other is
+    either unmarshalled although it was never marshalled, or reported as a failed message after it was taken out of
+    the queue."""
+    rule = "C08-RAWTYPES"
+    chk.rule(rule, "janet_chan_pack and janet_chan_unpack agree on the value types that cross a thread channel unmarshalled")
+    from jv.util import switch_cases, case_name
+    tu = prog.tus["ev.c"]
+    fs = {}
+    for name in ("janet_chan_pack", "janet_chan_unpack"):
+        f = tu.funcs.get(name)
+        if f is None:
+            raise AnalysisBroken(name + " not found")
+        chk.analysed(f)
+        sw = [x for x in f.nodes if x.k == "switch"]
+        if not sw:
+            raise AnalysisBroken(name + ": no switch over the value type")
+        fs[name] = set(case_name(c) for c in switch_cases(sw[0]) if c.k == "case")
+    raw_p = fs["janet_chan_pack"] - {"JANET_BUFFER"}
+    raw_u = fs["janet_chan_unpack"] - {"JANET_BUFFER"}
+    chk.instance(rule)
+    if raw_p == raw_u and raw_p:
+        chk.ok(rule, "both list %s" % sorted(raw_p))
+    else:
+        chk.violation(rule, "ev.c", "janet_chan_unpack", "raw-types", tu.funcs["janet_chan_unpack"].loc,
+                      "janet_chan_pack passes %s through unmarshalled, janet_chan_unpack expects %s: only in pack %s, only in unpack %s - "
+                      "such a message is consumed from the queue and then reported as an error (or read as bytes it does not contain)" % (
+                          sorted(raw_p), sorted(raw_u), sorted(raw_p - raw_u), sorted(raw_u - raw_p)))
+    chk.floor(rule, 1)
